@@ -298,6 +298,10 @@ def main(argv=None):
         os.makedirs(os.path.join(ROOT, "evidence"), exist_ok=True)
         with open(os.path.join(ROOT, "evidence", f"{prop}.json"), "w") as fh:
             json.dump(ev, fh, indent=1, default=str)
+        # keep the last run of each tier as well (the canonical file is rewritten by every run)
+        os.makedirs(os.path.join(ROOT, "evidence", tier), exist_ok=True)
+        with open(os.path.join(ROOT, "evidence", tier, f"{prop}.json"), "w") as fh:
+            json.dump(ev, fh, indent=1, default=str)
 
     print(
         f"[{prop}] evaluations={evaluations} distinct_nontrivial={len(nontrivial_hashes)} "
